@@ -55,7 +55,7 @@ def container_local(fn):
         vn = fn.nodes[fn.strip_casts(v)]
         while vn["k"] in ("CXXConstructExpr", "MaterializeTemporaryExpr", "ExprWithCleanups", "CXXBindTemporaryExpr") and len(vn.get("ch", [])) == 1:
             vn = fn.nodes[fn.strip_casts(vn["ch"][0])]
-        if vn["k"] == "DeclRefExpr" and vn.get("n") in local:
+        if vn["k"] == "DeclRefExpr" and vn.get("n") in local and not astq.is_default_constructed(fn, fn.strip_casts(v)):
             names.add(vn["n"])
     return names
 
